@@ -1385,6 +1385,12 @@ where
     }
 
     fn visit_mut_arrow_expr(&mut self, arrow_expr: &mut ArrowExpr) {
+        // declarations needed by parameter defaults can't live in the body:
+        // leave them pending for the enclosing statement list
+        arrow_expr.params.visit_mut_with(self);
+        arrow_expr.type_params.visit_mut_with(self);
+        arrow_expr.return_type.visit_mut_with(self);
+
         let is_expr_body = matches!(&*arrow_expr.body, BlockStmtOrExpr::Expr(..));
         let outer = is_expr_body.then(|| {
             (
@@ -1394,7 +1400,7 @@ where
             )
         });
 
-        arrow_expr.visit_mut_children_with(self);
+        arrow_expr.body.visit_mut_with(self);
 
         #[cfg(feature = "verif-hooks")]
         if !self.injecting_consts.is_empty() || !self.injecting_vars.is_empty() {
